@@ -225,6 +225,32 @@ def run(tier, seed):
             if rc != want:
                 rep.violation(f"C16/OVERLAPPING_VERSIONS/{a}-vs-{b}", f"two definitions of one name with versions \"{a}\" and \"{b}\": exit status {rc}, expected {want} (overlaps = {want != 0})",
                               {"versions": [a, b], "expected_status": want, "status": rc, "log": out[-600:], "input": open(p).read()})
+        # families of 3-4 definitions of one name, each tagged with one or two versions: rejected iff SOME pair of definitions overlaps
+        # (not only neighbours in some order, not only the first version of a tag) — predicted by the version algebra
+        pool = ["1", "1.1", "1.12", "1.12.1", "2", "2.4", "2.4.3", "3", "3.3", "3.3.5"]
+        fams = [["1.12 3", "2.4.3", "3.3.5"], ["1.1 3.3.5", "1.12", "2.4.3", "3.3.5"], ["1.12", "2.4.3", "3.3.5"], ["3.3.5", "1.12 2", "2.4.3 1.1"]]
+        for _ in range(2 if tier == "quick" else 30):
+            fam = []
+            for _ in range(3 + rng.below(2)):
+                a = rng.choice(pool)
+                tag = a
+                if rng.below(2):
+                    b = rng.choice([x for x in pool if x[0] != a[0]])
+                    tag = f"{a} {b}" if rng.below(2) else f"{b} {a}"
+                fam.append(tag)
+            fams.append(fam)
+        for fam in fams:
+            g.resync()
+            p = os.path.join(SCRATCH, "wow_message_parser/wowm/world/zz_verif_overlap.wowm")
+            open(p, "w").write("".join(f'enum VerifOverlapProbe : u8 {{ A = 0; B = {i + 1}; }} {{ versions = "{t}"; }}\n' for i, t in enumerate(fam)))
+            rc, out, _ = g.run(); runs += 1
+            vs = [[wowm.parse_world_version(x) for x in t.split()] for t in fam]
+            clash = any(wowm.world_overlaps(x, y) for i in range(len(vs)) for j in range(i + 1, len(vs)) for x in vs[i] for y in vs[j])
+            want = codes.get("OVERLAPPING_VERSIONS") if clash else 0
+            results[("OVERLAPPING_VERSIONS", rc == want)] += 1
+            if rc != want:
+                rep.violation(f"C16/OVERLAPPING_VERSIONS/family/{'|'.join(fam)}", f"{len(fam)} definitions of one name tagged {fam}: exit status {rc}, expected {want} (some pair overlaps = {clash})",
+                              {"versions": fam, "expected_status": want, "status": rc, "log": out[-600:], "input": open(p).read()})
     bad = sum(v for (r, ok), v in results.items() if not ok)
     rep.coverage = {
         "evaluations": runs, "distinct_nontrivial": runs, "generator_runs": runs, "rules_exercised": sorted({r for r, _ in results}), "sites_available": {k: len(v) for k, v in sites.items()},
